@@ -723,7 +723,7 @@ func (w *World) evalPredOn(pred *ssa.Function, c rune) (bool, error) {
 		return nil
 	}
 	ai := w.newInterp(hooks)
-	outs := ai.Exec(pred, []AVal{aInt(int64(c))}, nil, newAState())
+	outs := ai.Exec(pred, []AVal{aInt(int64(c))}, nil, w.initState())
 	res, have := false, false
 	for _, o := range outs {
 		if o.Cut || o.Panicked {
